@@ -296,7 +296,7 @@ class PythonTypesBackend(CodeBackend):
             args.append('{}={}'.format(param_name, default_value))
         self.generate_multiline_list(args, before='def __init__', after=':')
 
-        with self.indent():
+        with self.indent(), emit_pass_if_nothing_emitted(self):
             for param in annotation_type.params:
                 self.emit('self._{0} = {0}'.format(fmt_var(param.name, True)))
         self.emit()
